@@ -1,0 +1,80 @@
+//go:build verif
+
+// Contracts for the govc verifier (/verif). Comment-only: this file contains no code.
+package cert
+
+//@ // ---- C11: which certificate a TLS client is shown ---------------------------------------------------------
+//@ // the requested name as it is looked up: lower case, trailing dots removed
+//@ spec fun trimDots(s string) string decreases len(s) = (len(s) > 0 && s[len(s)-1] == '.') ? trimDots(s[:len(s)-1]) : s
+//@ spec fun reqName(h *tls.ClientHelloInfo) string = trimDots(toLower(h.ServerName))
+//@
+//@ func getCertificate
+//@   props C11
+//@   requires clientHello != nil && ErrNoCertsStored != nil
+//@   requires forall k string :: hasKey(cs.NameToCertificate, k) ==> cs.NameToCertificate[k] != nil
+//@   assigns nothing
+//@   ensures nopanic
+//@   // no certificates: an error, never a certificate
+//@   ensures len(cs.Certificates) == 0 ==> cert == nil && err != nil
+//@   ensures len(cs.Certificates) > 0 ==> err == nil
+//@   // a certificate whose name equals the requested name (any letter case, trailing dots ignored) wins
+//@   ensures len(cs.Certificates) > 0 && (strictMatch || (len(cs.Certificates) > 1 && cs.NameToCertificate != nil)) && hasKey(cs.NameToCertificate, reqName(clientHello)) ==> cert == cs.NameToCertificate[reqName(clientHello)]
+//@   // whatever is presented comes from the current set: an indexed certificate or the first one; with strict matching never the fallback
+//@   ensures cert != nil ==> (exists k string :: hasKey(cs.NameToCertificate, k) && cert == cs.NameToCertificate[k]) || (!strictMatch && cert == addrOfElem(cs.Certificates, 0))
+//@   ensures len(cs.Certificates) > 0 && !strictMatch ==> cert != nil
+//@   loop 1 invariant len(name) <= len(toLower(clientHello.ServerName)) && trimDots(name) == reqName(clientHello)
+//@   loop 1 decreases len(name)
+//@
+//@ func (*certstore).BuildNameToCertificate
+//@   props C11
+//@   requires c != nil
+//@   requires forall i int :: 0 <= i && i < len(c.Certificates) ==> len(c.Certificates[i].Certificate) > 0
+//@   assigns c.NameToCertificate
+//@   ensures nopanic
+//@   // every published set gets its own index, and the index only points into that set
+//@   ensures c.NameToCertificate != nil && fresh(c.NameToCertificate)
+//@   ensures forall k string :: hasKey(c.NameToCertificate, k) ==> exists i int :: 0 <= i && i < len(c.Certificates) && c.NameToCertificate[k] == addrOfElem(c.Certificates, i)
+//@   loop 1 invariant c.NameToCertificate != nil && fresh(c.NameToCertificate)
+//@   loop 1 invariant forall k string :: hasKey(c.NameToCertificate, k) ==> exists i int :: 0 <= i && i < len(c.Certificates) && c.NameToCertificate[k] == addrOfElem(c.Certificates, i)
+//@   loop 2 invariant c.NameToCertificate != nil && fresh(c.NameToCertificate)
+//@   loop 2 invariant forall k string :: hasKey(c.NameToCertificate, k) ==> exists i int :: 0 <= i && i < len(c.Certificates) && c.NameToCertificate[k] == addrOfElem(c.Certificates, i)
+//@
+//@ func loadCertificates
+//@   trusted
+//@   assigns nothing
+//@
+//@ // ---- C11: a source that delivers unusable material neither replaces the working set nor spins -----------
+//@ func watch
+//@   props C11
+//@   requires loadFn != nil
+//@   assigns *
+//@   // every turn of the loop either waits or publishes a set
+//@   loop 1 iteration ensures sleeps > old(sleeps) || chanSends > old(chanSends)
+//@
+//@ // ---- C11: a reload swaps the whole set; readers hold either the old or the new one --------------------------
+//@ func (*Store).SetCertificates
+//@   props C11
+//@   requires s != nil
+//@   requires forall i int :: 0 <= i && i < len(certs) ==> len(certs[i].Certificate) > 0
+//@   assigns atomStored, ioWrites, lastWrite
+//@   // the published value is a new certstore over exactly the given certificates with an index of its own:
+//@   // a set handed out earlier is never modified
+//@   ensures typeIs(atomStored[addrOfField(s, cs)], certstore)
+//@   ensures unbox(atomStored[addrOfField(s, cs)], certstore).Certificates == certs
+//@   ensures fresh(unbox(atomStored[addrOfField(s, cs)], certstore).NameToCertificate)
+//@   ensures forall v *atomic.Value :: v != addrOfField(s, cs) ==> atomStored[v] == old(atomStored[v])
+//@   loop 1 invariant cap(names) == 0 || fresh(names)
+//@
+//@ func (*Store).certstore
+//@   props C11
+//@   requires s != nil && typeIs(atomStored[addrOfField(s, cs)], certstore)
+//@   assigns nothing
+//@   ensures nopanic
+//@   ensures result == unbox(atomStored[addrOfField(s, cs)], certstore)
+//@
+//@ func NewStore
+//@   props C11
+//@   assigns atomStored
+//@   ensures nopanic
+//@   ensures result != nil && fresh(result)
+//@   ensures typeIs(atomStored[addrOfField(result, cs)], certstore) && len(unbox(atomStored[addrOfField(result, cs)], certstore).Certificates) == 0
